@@ -54,7 +54,8 @@ class Helper:
     def __init__(self, fn, cls):
         self.fn = fn
         self.cls = cls
-        self.kind = None      # "proc" | "single" | "expr"
+        self.kind = None      # "proc" | "single" | "expr" | "multi"
+        self.raw_body = None
         self.ret = None
         self.body = None
         self.static = any(norm(d) == "staticmethod"
@@ -78,6 +79,7 @@ class Helper:
             body = body[1:]
         if not body or len(body) > MAX_HELPER_STMTS:
             return
+        self.raw_body = body
         # closure factory: def inner(..): <single expression>; return inner
         if len(body) == 2 and isinstance(body[0], ast.FunctionDef) and \
                 not body[0].decorator_list and isinstance(
@@ -134,10 +136,85 @@ class Helper:
                                  orelse=rets[1].value)
             self.kind = "expr" if not self.body else "single"
             return
+        # general structured case: returns only under if/else (no return
+        # inside a loop, try or with): rewritten to a single exit
+        try:
+            new, always = _eliminate_returns(body, "__ret", [0])
+        except _NotInlinable:
+            return
+        if not always:
+            new = [ast.Assign(targets=[ast.Name(id="__ret", ctx=ast.Store())],
+                              value=ast.Constant(value=None))] + new
+        self.body = new
+        self.ret = ast.Name(id="__ret", ctx=ast.Load())
+        self.kind = "multi"
 
     @property
     def ok(self):
         return self.kind is not None
+
+
+class _NotInlinable(Exception):
+    pass
+
+
+def _has_return(st):
+    for n in [st] + list(_own_nodes(st)):
+        if isinstance(n, ast.Return):
+            return True
+    return False
+
+
+def _eliminate_returns(stmts, var, budget, cont=None):
+    """statement list with every `return X` turned into `var = X` and the
+    statements that follow a (conditional) return moved into the branch
+    that does not return.  -> (new statements, always returns)"""
+    out = []
+    for i, st in enumerate(stmts):
+        budget[0] += 1
+        if budget[0] > 400:
+            raise _NotInlinable()
+        if isinstance(st, ast.Return):
+            if cont is not None:
+                for s_ in cont(clone(st.value) if st.value is not None
+                               else None):
+                    out.append(ast.copy_location(s_, st))
+                return out, True
+            out.append(ast.copy_location(ast.Assign(
+                targets=[ast.Name(id=var, ctx=ast.Store())],
+                value=clone(st.value) if st.value is not None
+                else ast.Constant(value=None)), st))
+            return out, True
+        if not _has_return(st):
+            out.append(clone(st))
+            continue
+        if not isinstance(st, ast.If):
+            raise _NotInlinable()
+        rest = stmts[i + 1:]
+        b, br = _eliminate_returns(st.body, var, budget, cont)
+        o, orr = _eliminate_returns(st.orelse, var, budget, cont)
+        if br and orr:
+            out.append(ast.copy_location(ast.If(test=clone(st.test), body=b,
+                                                orelse=o), st))
+            return out, True
+        if br or orr:
+            r, rr = _eliminate_returns(rest, var, budget, cont)
+            if br:
+                new = ast.If(test=clone(st.test), body=b, orelse=o + r)
+            else:
+                new = ast.If(test=clone(st.test), body=b + r, orelse=o)
+            out.append(ast.copy_location(new, st))
+            return out, rr
+        # a return somewhere below, but both branches can fall through:
+        # the remaining statements are duplicated into both branches
+        b2, b2r = _eliminate_returns(list(st.body) + list(rest), var, budget,
+                                     cont)
+        o2, o2r = _eliminate_returns(list(st.orelse) + list(rest), var,
+                                     budget, cont)
+        out.append(ast.copy_location(ast.If(test=clone(st.test), body=b2,
+                                            orelse=o2), st))
+        return out, b2r and o2r
+    return out, False
 
 
 def _single_expr(fn):
@@ -217,6 +294,51 @@ class _Subst(ast.NodeTransformer):
 
 
 def _instantiate(h: Helper, call: ast.Call, caller_names, counter):
+    b = _bind(h, call, caller_names, counter)
+    if b is None:
+        return None
+    prelude, sub = b
+    body = [sub.visit(clone(s)) for s in (h.body or [])]
+    ret = sub.visit(clone(h.ret)) if h.ret is not None else None
+    for s in prelude + body:
+        ast.fix_missing_locations(s)
+    return prelude + body, ret
+
+
+def _instantiate_cont(h: Helper, call, caller_names, counter, on_true,
+                      on_false):
+    """`if helper(..): on_true else: on_false` with the helper's body in
+    place and the continuation attached to each of its returns"""
+    if h.raw_body is None:
+        return None
+    b = _bind(h, call, caller_names, counter)
+    if b is None:
+        return None
+    prelude, sub = b
+    body = [sub.visit(clone(s)) for s in h.raw_body]
+
+    def cont(value):
+        if value is None or (isinstance(value, ast.Constant)
+                             and not value.value):
+            return [clone(s) for s in on_false] or [ast.Pass()]
+        if isinstance(value, ast.Constant):
+            return [clone(s) for s in on_true] or [ast.Pass()]
+        return [ast.If(test=value, body=[clone(s) for s in on_true]
+                       or [ast.Pass()],
+                       orelse=[clone(s) for s in on_false])]
+    try:
+        new, always = _eliminate_returns(body, None, [0], cont)
+    except _NotInlinable:
+        return None
+    if not always:
+        new = new + cont(None)
+    out = prelude + new
+    for s in out:
+        ast.fix_missing_locations(s)
+    return out
+
+
+def _bind(h: Helper, call: ast.Call, caller_names, counter):
     fn = h.fn
     params = [a.arg for a in fn.args.posonlyargs + fn.args.args]
     kwonly = [a.arg for a in fn.args.kwonlyargs]
@@ -280,12 +402,7 @@ def _instantiate(h: Helper, call: ast.Call, caller_names, counter):
                 prelude.append(ast.copy_location(ast.Assign(
                     targets=[ast.Name(id=new, ctx=ast.Store())],
                     value=clone(a)), call))
-    sub = _Subst(mapping, renames)
-    body = [sub.visit(clone(s)) for s in (h.body or [])]
-    ret = sub.visit(clone(h.ret)) if h.ret is not None else None
-    for s in prelude + body:
-        ast.fix_missing_locations(s)
-    return prelude + body, ret
+    return prelude, _Subst(mapping, renames)
 
 
 class Inliner:
@@ -366,6 +483,23 @@ class Inliner:
 
     def _stmt(self, st, cls, names, fn, changed):
         pre = []
+        # `if [not] helper(..): A else: B` -> helper body with A/B attached
+        # to its returns (keeps the path structure for the flow analyses)
+        if isinstance(st, ast.If):
+            t, neg = st.test, False
+            if isinstance(t, ast.UnaryOp) and isinstance(t.op, ast.Not):
+                t, neg = t.operand, True
+            if isinstance(t, ast.Call):
+                h = self._match(t, cls)
+                if h is not None and h.fn is not fn and h.kind == "multi":
+                    a_, b_ = (st.orelse, st.body) if neg else (st.body,
+                                                                st.orelse)
+                    inst = _instantiate_cont(h, t, names, self.counter,
+                                             a_, b_)
+                    if inst is not None:
+                        self.used.add((h.cls, h.fn.name))
+                        changed[0] = True
+                        return inst
         # whole-statement forms
         val = None
         if isinstance(st, ast.Expr):
@@ -816,6 +950,22 @@ def _literal_coll(v, depth=0):
     return False
 
 
+def _rebound_names(tree):
+    """names stored anywhere except by an import statement"""
+    out = set()
+    for n in ast.walk(tree):
+        if isinstance(n, ast.Name) and isinstance(n.ctx, (ast.Store,
+                                                          ast.Del)):
+            out.add(n.id)
+        elif isinstance(n, ast.arg):
+            out.add(n.arg)
+        elif isinstance(n, ast.Global):
+            out.update(n.names)
+        elif isinstance(n, (ast.FunctionDef, ast.ClassDef)):
+            out.add(n.name)
+    return out
+
+
 def module_constants(tree):
     """(scalars, collections): module-level names bound exactly once to a
     literal and never re-bound or mutated anywhere in the module."""
@@ -874,14 +1024,38 @@ def module_constants(tree):
                             m.ctx, (ast.Store, ast.Del)):
                         bad.add(m.id)
     scal, coll = {}, {}
-    for name, v in bound.items():
-        if count.get(name, 0) != 1 or name in bad:
-            continue
-        if _scalar_const(v):
-            scal[name] = v
-        elif _literal_coll(v):
-            coll[name] = v
+    ok = {n: v for n, v in bound.items()
+          if count.get(n, 0) == 1 and n not in bad}
+    for _ in range(4):
+        progress = False
+        for name, v in ok.items():
+            if name in scal or name in coll:
+                continue
+            v2 = _fold_strings(_ConstInline(scal).visit(clone(v))) \
+                if scal else v
+            if _scalar_const(v2):
+                scal[name] = v2
+                progress = True
+            elif _literal_coll(v2):
+                coll[name] = v2
+                progress = True
+        if not progress:
+            break
     return scal, coll
+
+
+def _fold_strings(e):
+    """'a' + 'b' -> 'ab' (constants defined from other constants)"""
+    class F(ast.NodeTransformer):
+        def visit_BinOp(self, node):
+            self.generic_visit(node)
+            if isinstance(node.op, ast.Add) and all(
+                    isinstance(x, ast.Constant) and isinstance(x.value, str)
+                    for x in (node.left, node.right)):
+                return ast.copy_location(ast.Constant(
+                    value=node.left.value + node.right.value), node)
+            return node
+    return F().visit(e)
 
 
 class _ConstInline(ast.NodeTransformer):
@@ -899,7 +1073,9 @@ class _ConstInline(ast.NodeTransformer):
 
     def visit_Name(self, node):
         if isinstance(node.ctx, ast.Load) and node.id in self.scal:
-            return ast.copy_location(clone(self.scal[node.id]), node)
+            new = ast.copy_location(clone(self.scal[node.id]), node)
+            new._from_const = node.id     # rules may ask where it came from
+            return new
         return node
 
 
@@ -1084,17 +1260,401 @@ def _is_mask(a):
     return False
 
 
-def normalize_module(tree: ast.Module) -> ast.Module:
+class _CM:
+    """a private @contextmanager generator with one yield"""
+    def __init__(self, fn, cls):
+        self.fn, self.cls = fn, cls
+        self.static = self.classm = False
+        self.ok = False
+        body = [s for s in fn.body if not (isinstance(s, ast.Expr)
+                                           and isinstance(s.value,
+                                                          ast.Constant))]
+        ys = [n for n in _own_nodes(fn) if isinstance(n, (ast.Yield,
+                                                          ast.YieldFrom))]
+        if len(ys) != 1 or not isinstance(ys[0], ast.Yield) or \
+                fn.args.vararg or fn.args.kwarg:
+            return
+        if any(isinstance(n, ast.Return) for n in _own_nodes(fn)):
+            return
+        self.value = ys[0].value
+        for i, st in enumerate(body):
+            if isinstance(st, ast.Expr) and st.value is ys[0]:
+                self.shape = ("flat", body[:i], body[i + 1:])
+                self.ok = True
+                return
+            if isinstance(st, ast.Try):
+                for j, s2 in enumerate(st.body):
+                    if isinstance(s2, ast.Expr) and s2.value is ys[0]:
+                        self.shape = ("try", body[:i], st, j, body[i + 1:])
+                        self.ok = True
+                        return
+
+
+def _inline_contextmanagers(tree):
+    cms = {}
+
+    def is_cm(fn):
+        return any(norm(d) in ("contextlib.contextmanager",
+                               "contextmanager") for d in fn.decorator_list)
+    for st in tree.body:
+        if isinstance(st, ast.FunctionDef) and is_cm(st) and \
+                _is_private(st.name):
+            c = _CM(st, None)
+            if c.ok:
+                cms[(None, st.name)] = c
+        elif isinstance(st, ast.ClassDef):
+            for m in st.body:
+                if isinstance(m, ast.FunctionDef) and is_cm(m) and \
+                        _is_private(m.name):
+                    c = _CM(m, st.name)
+                    if c.ok:
+                        cms[(st.name, m.name)] = c
+    if not cms:
+        return
+    counter = [0]
+
+    def match(call, cls):
+        f = call.func
+        if isinstance(f, ast.Name):
+            return cms.get((None, f.id))
+        if isinstance(f, ast.Attribute) and isinstance(f.value, ast.Name) \
+                and f.value.id in ("self", "cls") and cls:
+            return cms.get((cls, f.attr))
+        return None
+
+    def block(stmts, cls, names):
+        out = []
+        for st in stmts:
+            for fld in ("body", "orelse", "finalbody"):
+                b = getattr(st, fld, None)
+                if isinstance(b, list) and b and isinstance(b[0], ast.stmt) \
+                        and not isinstance(st, (ast.FunctionDef,
+                                                ast.ClassDef)):
+                    setattr(st, fld, block(b, cls, names))
+            if isinstance(st, ast.Try):
+                for h in st.handlers:
+                    h.body = block(h.body, cls, names)
+            if isinstance(st, ast.With) and len(st.items) == 1 and \
+                    isinstance(st.items[0].context_expr, ast.Call):
+                c = match(st.items[0].context_expr, cls)
+                if c is not None:
+                    b = _bind(c, st.items[0].context_expr, names, counter)
+                    if b is not None:
+                        prelude, sub_ = b
+
+                        def inst(ss):
+                            return [sub_.visit(clone(s)) for s in ss]
+                        tgt = st.items[0].optional_vars
+                        bind = []
+                        if tgt is not None:
+                            val = sub_.visit(clone(c.value)) if \
+                                c.value is not None else ast.Constant(
+                                    value=None)
+                            bind = [ast.copy_location(ast.Assign(
+                                targets=[tgt], value=val), st)]
+                        if c.shape[0] == "flat":
+                            _, pre, post = c.shape
+                            new = prelude + inst(pre) + bind + st.body + \
+                                inst(post)
+                        else:
+                            _, pre, tr, j, post = c.shape
+                            t2 = sub_.visit(clone(tr))
+                            t2.body = t2.body[:j] + bind + st.body + \
+                                t2.body[j + 1:]
+                            new = prelude + inst(pre) + [t2] + inst(post)
+                        for s in new:
+                            ast.copy_location(s, st) if not hasattr(
+                                s, "lineno") else None
+                            ast.fix_missing_locations(s)
+                        c.fn._inlined_helper = True
+                        out.extend(new)
+                        continue
+            out.append(st)
+        return out
+
+    def func(fn, cls):
+        names = {n.id for n in ast.walk(fn) if isinstance(n, ast.Name)} | {
+            a.arg for a in ast.walk(fn) if isinstance(a, ast.arg)}
+        fn.body = block(fn.body, cls, names)
+    for st in tree.body:
+        if isinstance(st, ast.FunctionDef) and (None, st.name) not in cms:
+            func(st, None)
+        elif isinstance(st, ast.ClassDef):
+            for m in st.body:
+                if isinstance(m, ast.FunctionDef) and \
+                        (st.name, m.name) not in cms:
+                    func(m, st.name)
+
+
+def _wrapper_decorators(tree):
+    """module-level `def deco(f): [@wraps(f)] def w(..): ...; return w`"""
+    out = {}
+    for st in tree.body:
+        if not isinstance(st, ast.FunctionDef) or st.decorator_list or \
+                len(st.args.args) != 1 or st.args.vararg or st.args.kwarg:
+            continue
+        body = [s for s in st.body if not (isinstance(s, ast.Expr)
+                                           and isinstance(s.value,
+                                                          ast.Constant))]
+        if len(body) == 2 and isinstance(body[0], ast.FunctionDef) and \
+                isinstance(body[1], ast.Return) and isinstance(
+                    body[1].value, ast.Name) and \
+                body[1].value.id == body[0].name and all(
+                    norm(d).startswith(("functools.wraps(", "wraps("))
+                    for d in body[0].decorator_list) and \
+                not body[0].args.vararg and not body[0].args.kwarg:
+            out[st.name] = (st.args.args[0].arg, body[0])
+    return out
+
+
+def _inline_decorators(tree):
+    """`@deco def f(self): B`  ->  `def f(self): <wrapper body calling
+    self._f__undecorated()>` plus the private `_f__undecorated` (which the
+    helper inliner then folds back in)"""
+    decos = _wrapper_decorators(tree)
+    if not decos:
+        return
+
+    def handle(container, in_class):
+        new_body = []
+        for g in container.body:
+            new_body.append(g)
+            if not isinstance(g, ast.FunctionDef):
+                continue
+            hit = [d for d in g.decorator_list if isinstance(d, ast.Name)
+                   and d.id in decos]
+            if len(hit) != 1:
+                continue
+            mname, w = decos[hit[0].id]
+            gp = [a.arg for a in g.args.args]
+            wp = [a.arg for a in w.args.args]
+            if len(gp) != len(wp) or g.args.vararg or g.args.kwarg or \
+                    g.args.kwonlyargs or w.args.kwonlyargs:
+                continue
+            orig = ast.FunctionDef(
+                name=f"_{g.name}__undecorated", args=clone(g.args),
+                body=g.body, decorator_list=[d for d in g.decorator_list
+                                             if d is not hit[0]
+                                             and norm(d) not in (
+                                                 "staticmethod",)],
+                returns=None, type_comment=None, type_params=[])
+            ast.copy_location(orig, g)
+            if orig.decorator_list:
+                continue
+            doc = [s for s in g.body[:1] if isinstance(s, ast.Expr)
+                   and isinstance(s.value, ast.Constant)
+                   and isinstance(s.value.value, str)]
+            orig.body = g.body[len(doc):] or [ast.Pass()]
+            ren = dict(zip(wp, gp))
+
+            class R(ast.NodeTransformer):
+                def visit_Name(self, node):
+                    if node.id in ren:
+                        return ast.copy_location(ast.Name(
+                            id=ren[node.id], ctx=node.ctx), node)
+                    return node
+
+                def visit_Call(self, node):
+                    self.generic_visit(node)
+                    if isinstance(node.func, ast.Name) and \
+                            node.func.id == mname:
+                        if in_class and node.args:
+                            node.func = ast.Attribute(
+                                value=node.args[0], attr=orig.name,
+                                ctx=ast.Load())
+                            node.args = node.args[1:]
+                        else:
+                            node.func = ast.Name(id=orig.name,
+                                                 ctx=ast.Load())
+                    return node
+            wbody = [R().visit(clone(s)) for s in w.body
+                     if not (isinstance(s, ast.Expr) and isinstance(
+                         s.value, ast.Constant))]
+            g.body = doc + wbody
+            g.decorator_list = [d for d in g.decorator_list
+                                if d is not hit[0]]
+            new_body.append(orig)
+            ast.fix_missing_locations(g)
+            ast.fix_missing_locations(orig)
+        container.body = new_body
+    handle(tree, False)
+    for st in tree.body:
+        if isinstance(st, ast.ClassDef):
+            handle(st, True)
+
+
+def _namedtuples(tree):
+    """module-level `T = namedtuple("T", "a b c" | [..])` -> {T: fields}"""
+    out = {}
+    for st in tree.body:
+        if isinstance(st, ast.Assign) and len(st.targets) == 1 and \
+                isinstance(st.targets[0], ast.Name) and isinstance(
+                    st.value, ast.Call) and norm(st.value.func) in (
+                    "collections.namedtuple", "namedtuple") and \
+                len(st.value.args) >= 2:
+            f = st.value.args[1]
+            fields = None
+            if isinstance(f, ast.Constant) and isinstance(f.value, str):
+                fields = f.value.replace(",", " ").split()
+            elif isinstance(f, (ast.List, ast.Tuple)) and all(
+                    isinstance(e, ast.Constant) for e in f.elts):
+                fields = [e.value for e in f.elts]
+            if fields:
+                out[st.targets[0].id] = fields
+    return out
+
+
+def _scalarise_records(fn, types):
+    """`r = T(a=ea, b=eb)` ... `r.a`  ->  `r__a = ea; r__b = eb` ... `r__a`
+    when r is bound once and only ever read field by field"""
+    cands = {}
+    holder = {}
+    for par in [fn] + [n for n in _own_nodes(fn)]:
+        for fld in ("body", "orelse", "finalbody"):
+            blk = getattr(par, fld, None)
+            if isinstance(blk, list):
+                for st in blk:
+                    if isinstance(st, ast.Assign) and len(st.targets) == 1 \
+                            and isinstance(st.targets[0], ast.Name) and \
+                            isinstance(st.value, ast.Call) and isinstance(
+                                st.value.func, ast.Name) and \
+                            st.value.func.id in types:
+                        cands.setdefault(st.targets[0].id, []).append(st)
+                        holder[id(st)] = (par, fld)
+    for name, sts in cands.items():
+        if len(sts) != 1:
+            continue
+        st = sts[0]
+        nstores = sum(1 for n in _own_nodes(fn) if isinstance(n, ast.Name)
+                      and n.id == name and isinstance(n.ctx, (ast.Store,
+                                                              ast.Del)))
+        if nstores != 1:
+            continue
+        fields = types[st.value.func.id]
+        call = st.value
+        if any(isinstance(a, ast.Starred) for a in call.args) or any(
+                k.arg is None for k in call.keywords) or \
+                len(call.args) > len(fields):
+            continue
+        vals = dict(zip(fields, call.args))
+        vals.update({k.arg: k.value for k in call.keywords})
+        if set(vals) != set(fields):
+            continue
+        uses = [n for n in ast.walk(fn) if isinstance(n, ast.Name)
+                and n.id == name and isinstance(n.ctx, ast.Load)]
+        attr_uses = [n for n in ast.walk(fn) if isinstance(n, ast.Attribute)
+                     and isinstance(n.value, ast.Name) and n.value.id == name
+                     and n.attr in fields and isinstance(n.ctx, ast.Load)]
+        if len(uses) != len(attr_uses) or not uses:
+            continue
+        for a in attr_uses:
+            _replace_node(fn, a, ast.Name(id=f"{name}__{a.attr}",
+                                          ctx=ast.Load()))
+        new = [ast.copy_location(ast.Assign(
+            targets=[ast.Name(id=f"{name}__{f_}", ctx=ast.Store())],
+            value=vals[f_]), st) for f_ in fields]
+        par, fld = holder[id(st)]
+        blk = getattr(par, fld)
+        i = [k for k, s in enumerate(blk) if s is st][0]
+        setattr(par, fld, blk[:i] + new + blk[i + 1:])
+    ast.fix_missing_locations(fn)
+
+
+def _self_chain(e):
+    """`self.a.b` -> 'self.a.b' (attribute chains rooted at self only)"""
+    parts = []
+    while isinstance(e, ast.Attribute):
+        parts.append(e.attr)
+        e = e.value
+    if isinstance(e, ast.Name) and e.id == "self" and parts:
+        return "self." + ".".join(reversed(parts))
+    return None
+
+
+def _self_aliases(fn):
+    """`fp = self.fit_properties` ... `fp[k]`  ->  `self.fit_properties[k]`:
+    a local bound once to an attribute chain of self is replaced by the
+    chain, provided the chain is not re-bound before the last use."""
+    if not fn.args.args or fn.args.args[0].arg != "self":
+        return
+    params = {a.arg for a in fn.args.posonlyargs + fn.args.args
+              + fn.args.kwonlyargs}
+    stores = {}
+    assigns = {}
+    holder = {}
+    for par in [fn] + [n for n in _own_nodes(fn)]:
+        for fld in ("body", "orelse", "finalbody"):
+            blk = getattr(par, fld, None)
+            if isinstance(blk, list):
+                for st in blk:
+                    if isinstance(st, ast.Assign) and len(st.targets) == 1 \
+                            and isinstance(st.targets[0], ast.Name) and \
+                            _self_chain(st.value):
+                        assigns.setdefault(st.targets[0].id, []).append(st)
+                        holder[id(st)] = (par, fld)
+    for n in _own_nodes(fn):
+        if isinstance(n, ast.Name) and isinstance(n.ctx, (ast.Store,
+                                                          ast.Del)):
+            stores[n.id] = stores.get(n.id, 0) + 1
+    chain_stores = []
+    for n in _own_nodes(fn):
+        if isinstance(n, ast.Attribute) and isinstance(
+                n.ctx, (ast.Store, ast.Del)):
+            c = _self_chain(n)
+            if c:
+                chain_stores.append((c, n.lineno))
+    for name, sts in assigns.items():
+        if len(sts) != 1 or stores.get(name, 0) != 1 or name in params:
+            continue
+        st = sts[0]
+        chain = _self_chain(st.value)
+        uses = [n for n in _own_nodes(fn) if isinstance(n, ast.Name)
+                and n.id == name and isinstance(n.ctx, ast.Load)]
+        # nested functions/lambdas capturing the alias: leave it alone
+        captured = any(isinstance(n, ast.Name) and n.id == name
+                       for sub_ in _own_nodes(fn)
+                       if isinstance(sub_, (ast.FunctionDef, ast.Lambda))
+                       for n in ast.walk(sub_))
+        if captured or not uses:
+            continue
+        last = max(u.lineno for u in uses)
+        first = min(u.lineno for u in uses)
+        if first < st.lineno:
+            continue
+        if any((c == chain or chain.startswith(c + "."))
+               and st.lineno <= ln <= last for c, ln in chain_stores):
+            continue
+        for u in uses:
+            _replace_node(fn, u, clone(st.value))
+        par, fld = holder[id(st)]
+        setattr(par, fld, [s for s in getattr(par, fld) if s is not st]
+                or [ast.Pass()])
+    ast.fix_missing_locations(fn)
+
+
+def normalize_module(tree: ast.Module, extern=None) -> ast.Module:
     scal, coll = module_constants(tree)
+    if extern:
+        # constants imported from a sibling module (unless re-bound here)
+        rebound = _rebound_names(tree)
+        for k, v in extern.items():
+            if k not in scal and k not in rebound:
+                scal[k] = v
     if scal:
         tree = _ConstInline(scal).visit(tree)
+    _inline_decorators(tree)
+    _inline_contextmanagers(tree)
     tree = Inliner(tree).run()
     tree = Idioms().visit(tree)
     tree = Idioms2(coll).visit(tree)
     tree = Unroll().visit(tree)
     tree = AttrCalls().visit(tree)
+    ntypes = _namedtuples(tree)
     for n in ast.walk(tree):
         if isinstance(n, ast.FunctionDef):
             _local_lambdas(n)
+            _self_aliases(n)
+            if ntypes:
+                _scalarise_records(n, ntypes)
     ast.fix_missing_locations(tree)
     return tree
